@@ -287,9 +287,11 @@ class State:
         self.events = []
         self.next_fid = 0
         self.forks = 0
+        self.stop_at = None  # eager closure evaluation on a copy of the caller's frames: stop when the stack is back at this depth
 
     def clone(self):
         s = State()
+        s.stop_at = self.stop_at
         s.frames = [f.clone() for f in self.frames]
         s.mem = dict(self.mem)
         s.pc = list(self.pc)
@@ -309,6 +311,7 @@ class PathResult:
     def __init__(self, kind, value, state):
         self.kind, self.value = kind, value
         self.pc, self.events, self.mem = state.pc, state.events, state.mem
+        self.frames = state.frames
 
 
 class Inconclusive(Exception):
@@ -880,6 +883,8 @@ class Executor:
             return ("model", "Iterator::Iter::next")
         if re.match(r"^Iterator::\w+::(nth|count)$", norm):
             return ("model", "Iterator::Iter::" + norm.rsplit("::", 1)[1])
+        if re.match(r"^Iterator::\w+::(find_map|try_for_each|any|all|for_each)$", norm):
+            return ("model", "Iterator::Iter::fold-like")
         if re.match(r"^Iterator::\w+::(rev|cloned|copied|enumerate)$", norm):
             return ("model", "Iterator::adaptor::" + norm.rsplit("::", 1)[1])
         if re.match(r"^Iterator::\w+::filter_map$", norm):
@@ -1001,6 +1006,24 @@ class Executor:
                 frame.block = term[2]["return"]
                 continue
             if k == "assert":
+                # `assert(cond == expected)`: the failing side is a panic path of its own (bounds checks; overflow checks are off in the dump)
+                try:
+                    c = self.scalar_of(state, self.eval_operand(state, frame, term[2]), "bool")
+                except Inconclusive:
+                    c = None
+                if c is not None and not isinstance(c, bool):
+                    ok = z3.Not(c) if term[1] else c
+                    bad = c if term[1] else z3.Not(c)
+                    if self.feasible(state, bad):
+                        s2 = state.clone()
+                        s2.pc.append(bad)
+                        self.finish(s2, "panic", "assertion failed in " + self.qual.get(frame.fn.name, frame.fn.name))
+                        if not self.feasible(state, ok):
+                            return
+                        state.pc.append(ok)
+                elif isinstance(c, bool) and (c == bool(term[1])):
+                    self.finish(state, "panic", "assertion failed in " + self.qual.get(frame.fn.name, frame.fn.name))
+                    return
                 frame.block = term[3]["success"]
                 continue
             if k == "return":
@@ -1008,7 +1031,7 @@ class Executor:
                 if len(state.frames) == 1:
                     ret = self.deep_resolve(state, ret)
                 state.frames.pop()
-                if not state.frames:
+                if not state.frames or (state.stop_at is not None and len(state.frames) == state.stop_at):
                     self.finish(state, "return", ret)
                     return
                 if getattr(self, "trace_returns", None):
@@ -1166,24 +1189,33 @@ class Executor:
         state.frames.append(fr)
 
     def eval_closure_all(self, state, clo, cargs):
-        """run a capture-free closure to completion on a copy of the state: -> list of (path condition, mem, value) alternatives"""
+        """run a closure to completion on a copy of the state: -> list of (path condition, mem, value, events) alternatives.
+        A closure that captures references to the caller's locals runs on a copy of the caller's frames; it may read them, a write to them is not followed (Inconclusive)."""
         c = self.read_lref(state, clo) if isinstance(clo, LRef) else clo
-        if not (isinstance(c, Agg) and c.kind == "closure") or any(isinstance(x, LRef) for x in c.fields):
-            raise Inconclusive("closure with local captures cannot be evaluated eagerly")
+        if not (isinstance(c, Agg) and c.kind == "closure"):
+            raise Inconclusive("not a closure value: %r" % (c,))
         f = self._closure_by_sig.get(c.name)
         if f is None:
             raise Inconclusive("closure body not found")
         self.stats["inlined"].add(self.qual.get(f.name, f.name))
-        sub = State()
-        fr = Frame(0, f, None, None)
-        sub.next_fid = 1
+        captures_locals = any(isinstance(x, LRef) for x in c.fields)
+        if captures_locals:
+            sub = state.clone()
+            sub.stop_at = len(sub.frames)
+            before = [self._frame_digest(sub, fr) for fr in sub.frames]
+            fr = Frame(sub.next_fid, f, None, None)
+            sub.next_fid += 1
+        else:
+            sub = State()
+            fr = Frame(0, f, None, None)
+            sub.next_fid = 1
+            sub.pc = list(state.pc)
+            sub.mem = dict(state.mem)
         for (n, ty), v in zip(f.params, [c] + list(cargs)):
             if isinstance(v, Sym) and v.ty is None and ty and "{closure" not in ty:
                 v = Sym(v.path, ty)
             fr.locals[n] = v
         sub.frames.append(fr)
-        sub.pc = list(state.pc)
-        sub.mem = dict(state.mem)
         sub.events = []
         saved = self.results
         self.results = []
@@ -1197,8 +1229,19 @@ class Executor:
             if r.kind != "return":
                 raise Inconclusive("closure evaluation ended with %s: %s" % (r.kind, r.value))
             self.stats["paths"] -= 1
-            out.append((r.pc, r.mem, r.value, r.events))
+            if captures_locals:
+                st_after = State()
+                st_after.frames, st_after.mem = r.frames, r.mem
+                if [self._frame_digest(st_after, fr2) for fr2 in r.frames[:len(before)]] != before:
+                    raise Inconclusive("a closure writes to locals of its caller")
+                val = self.deep_resolve(st_after, r.value)
+            else:
+                val = r.value
+            out.append((r.pc, r.mem, val, r.events))
         return out
+
+    def _frame_digest(self, state, fr):
+        return tuple(sorted((k, self.summ(state, v)[:200] if not isinstance(v, (IterS, IterL, FMap, FlatMap)) else id(v)) for k, v in fr.locals.items() if not isinstance(v, LRef)))
 
     def call_closure(self, state, frame, clo, cargs, dest, ret_block):
         """call a closure value (Agg closure or reference to one) with explicit args"""
@@ -1772,6 +1815,79 @@ def m_iter_nth(ex, state, frame, dest, args, ret_block, work, callee):
     return _finish_iter_alts(ex, r, dest, ret_block, work, cur)
 
 
+@model("Iterator::Iter::fold-like")
+def m_iter_foldlike(ex, state, frame, dest, args, ret_block, work, callee):
+    """find_map / try_for_each / any / all / for_each: run the closure element by element, stop as the method says"""
+    which = normalize_callee(callee).rsplit("::", 1)[1]
+    r = args[0]
+    it = _val(ex, state, r)
+    if not isinstance(it, (IterS, IterL, FMap, FlatMap)):
+        raise Inconclusive("%s over %r" % (which, it))
+    unit = Agg("tuple", None, None, [])
+    end_value = {"find_map": Agg("adt", "Option", "None", []), "try_for_each": Agg("adt", "Result", "Ok", [unit]), "any": False, "all": True, "for_each": unit}[which]
+    cur = [(state.clone(), it)]
+    done = []  # (state, value, iterator afterwards)
+    for step in range(ex.slice_bound + 8):
+        nxt = []
+        for st, itv in cur:
+            for st1, opt, it1 in iter_next_alts(ex, st, itv):
+                if opt.variant == "None":
+                    done.append((st1, end_value, it1))
+                    continue
+                for pc, mem, val, evs in ex.eval_closure_all(st1, args[1], [opt.fields[0]]):
+                    st2 = st1.clone()
+                    st2.pc = list(pc)
+                    st2.mem = dict(mem)
+                    st2.events = st2.events + list(evs)
+                    if which == "for_each":
+                        nxt.append((st2, it1))
+                    elif which == "find_map":
+                        if not (isinstance(val, Agg) and val.name == "Option"):
+                            raise Inconclusive("find_map closure returned %r" % (val,))
+                        (done.append((st2, val, it1)) if val.variant == "Some" else nxt.append((st2, it1)))
+                    elif which == "try_for_each":
+                        if isinstance(val, Agg) and val.name == "Result":
+                            (nxt.append((st2, it1)) if val.variant == "Ok" else done.append((st2, val, it1)))
+                        elif isinstance(val, (Sym, Opaque)):
+                            d = ex.discriminant(st2, val if isinstance(val, Sym) else Opaque(val.origin, "Result<?,?>"), "Result<?,?>")
+                            for i in (0, 1):
+                                if ex.feasible(st2, d == i):
+                                    st3 = st2.clone()
+                                    st3.pc.append(d == i)
+                                    if i == 0:
+                                        nxt.append((st3, it1))
+                                    else:
+                                        done.append((st3, Agg("adt", "Result", "Err", [Opaque(("err-of", val.origin if isinstance(val, Opaque) else pstr(val.path)), None)]), it1))
+                        else:
+                            raise Inconclusive("try_for_each closure returned %r" % (val,))
+                    else:  # any / all
+                        b = ex.scalar_of(st2, val, "bool")
+                        stop_on = which == "any"
+                        if isinstance(b, bool):
+                            (done.append((st2, stop_on, it1)) if b == stop_on else nxt.append((st2, it1)))
+                        else:
+                            for bv in (True, False):
+                                c = b if bv else z3.Not(b)
+                                if ex.feasible(st2, c):
+                                    st3 = st2.clone()
+                                    st3.pc.append(c)
+                                    (done.append((st3, stop_on, it1)) if bv == stop_on else nxt.append((st3, it1)))
+        cur = nxt
+        if not cur:
+            break
+    if cur or not done:
+        raise Inconclusive("%s: iterator longer than the bound / no alternative" % which)
+    ex.stats["forks"] += len(done) - 1
+    for st, val, it2 in done:
+        fr = st.frames[-1]
+        if isinstance(r, LRef):
+            ex.write_place(st, ex.frame_by_id(st, r.fid), r.place, it2)
+        ex.write_place(st, fr, dest, val)
+        fr.block = ret_block
+        work.append(st)
+    return "done"
+
+
 @model("Iterator::Iter::count")
 def m_iter_count(ex, state, frame, dest, args, ret_block, work, callee):
     it = _val(ex, state, args[0])
@@ -1968,6 +2084,49 @@ def m_strip(ex, state, frame, dest, args, ret_block, work, callee):
     return _ret(ex, state, frame, dest, Opaque(("call", "str::strip", ()), "Option<&str>"), ret_block)
 
 
+@model("Option::or_else", "Option::or")
+def m_or_else(ex, state, frame, dest, args, ret_block, work, callee):
+    v = _val(ex, state, args[0])
+    lazy = normalize_callee(callee).endswith("or_else")
+
+    def other(st):
+        if not lazy:
+            return [(st.pc, st.mem, _val(ex, st, args[1]), [])]
+        return ex.eval_closure_all(st, args[1], [])
+    if isinstance(v, Agg) and v.kind == "adt" and v.name == "Option":
+        alts = [(state.clone(), v)] if v.variant == "Some" else None
+        if alts is None:
+            alts = []
+            for pc, mem, val, evs in other(state):
+                st2 = state.clone()
+                st2.pc, st2.mem, st2.events = list(pc), dict(mem), st2.events + list(evs)
+                alts.append((st2, val))
+    elif isinstance(v, Sym):
+        d = ex.discriminant(state, Sym(v.path, "Option<?>"), None)
+        alts = []
+        if ex.feasible(state, d == 1):
+            st = state.clone()
+            st.pc.append(d == 1)
+            alts.append((st, Agg("adt", "Option", "Some", [Sym(v.path + (("as", "Some"), 0), inner_ty(v.ty))])))
+        if ex.feasible(state, d == 0):
+            st = state.clone()
+            st.pc.append(d == 0)
+            for pc, mem, val, evs in other(st):
+                st2 = st.clone()
+                st2.pc, st2.mem, st2.events = list(pc), dict(mem), st2.events + list(evs)
+                alts.append((st2, val))
+    else:
+        raise Inconclusive("or_else on %r" % (v,))
+    if not alts:
+        raise Inconclusive("or_else: no feasible alternative")
+    for st, val in alts:
+        fr = st.frames[-1]
+        ex.write_place(st, fr, dest, val)
+        fr.block = ret_block
+        work.append(st)
+    return "done"
+
+
 @model("Option::and_then", "Option::map")
 def m_and_then(ex, state, frame, dest, args, ret_block, work, callee):
     v = _val(ex, state, args[0])
@@ -1993,24 +2152,38 @@ def m_and_then(ex, state, frame, dest, args, ret_block, work, callee):
         d = ex.discriminant(state, Sym(v.path, "Option<?>"), None)
         feas = [(i, d == i) for i in (0, 1) if ex.feasible(state, d == i)]
         ex.stats["forks"] += len(feas) - 1
-        todo = []
-        for n, (i, c) in enumerate(feas):
-            st = state if n == 0 else state.clone()
-            todo.append((st, i, c))
-        for st, i, c in todo:
+        for i, c in feas:
+            st = state.clone()
             st.pc.append(c)
             fr = st.frames[-1]
             if i == 0:
                 ex.write_place(st, fr, dest, Agg("adt", "Option", "None", []))
                 fr.block = ret_block
-            else:
-                inner = Sym(v.path + (("as", "Some"), 0), inner_ty(v.ty))
-                if is_map:
-                    ex.write_place(st, fr, dest, Agg("adt", "Option", "Some", [Opaque(("map", pstr(v.path)), None)]))
-                    fr.block = ret_block
-                else:
-                    ex.call_closure(st, fr, args[1], [inner], dest, ret_block)
-            if st is not state:
                 work.append(st)
-        return "cont"
+                continue
+            inner = Sym(v.path + (("as", "Some"), 0), inner_ty(v.ty))
+            if not is_map:
+                ex.call_closure(st, fr, args[1], [inner], dest, ret_block)
+                work.append(st)
+                continue
+            try:
+                alts = ex.eval_closure_all(st, args[1], [inner])
+            except Inconclusive:
+                alts = None
+            if alts is None:
+                # a mapping function the executor does not evaluate (a fn item, a closure over locals): the value is opaque, the variant is known
+                ex.write_place(st, fr, dest, Agg("adt", "Option", "Some", [Opaque(("map", pstr(v.path)), None)]))
+                fr.block = ret_block
+                work.append(st)
+                continue
+            for pc, mem, val, evs in alts:
+                st2 = st.clone()
+                st2.pc = list(pc)
+                st2.mem = dict(mem)
+                st2.events = st2.events + list(evs)
+                fr2 = st2.frames[-1]
+                ex.write_place(st2, fr2, dest, Agg("adt", "Option", "Some", [val]))
+                fr2.block = ret_block
+                work.append(st2)
+        return "done"
     raise Inconclusive("and_then on %r" % (v,))
